@@ -78,6 +78,7 @@ partial def monitorLoop (h : IO.FS.Stream) (out : IO.FS.Stream) : IO Unit := do
   let mut pre : Option State := none
   let mut n : Nat := 0
   let mut viol : Nat := 0
+  let mut ghost : Mon.Ghost := []
   repeat
     match ← readBlock h with
     | none => break
@@ -102,6 +103,11 @@ partial def monitorLoop (h : IO.FS.Stream) (out : IO.FS.Stream) : IO Unit := do
             for v in vs do
               out.putStrLn s!"V {n} {name} {v}"
               viol := viol + 1
+          let (g', vs) := Mon.cadence ghost t
+          ghost := g'
+          for v in vs do
+            out.putStrLn s!"V {n} cadence {v}"
+            viol := viol + 1
           pre := some s1
         | _, _ => out.putStrLn s!"P {n} op before genesis"
       | .invalid | .unknownCtx =>
